@@ -29,9 +29,10 @@ type Formula struct {
 }
 
 type Assump struct {
-	Guard string
-	F     Formula
-	Why   string
+	Guard  string
+	F      Formula
+	Why    string
+	Global bool // added while translating contract clauses: a fact about terms, visible to every obligation
 }
 
 type Obl struct {
@@ -106,6 +107,8 @@ type FnTrans struct {
 	contractErrors []string
 	assumpTerms []string
 	knownRefs map[string]bool
+	strPairs map[string]bool
+	phase2 bool
 	siteRanks map[*SiteSpec]map[ssa.Instruction]int
 	constArrs map[string]string
 	globalsUsed map[string]bool
@@ -146,7 +149,7 @@ func (t *FnTrans) assume(guard, term, why string) {
 	if term == "true" {
 		return
 	}
-	t.assumps = append(t.assumps, Assump{Guard: guard, F: Formula{Raw: term}, Why: why})
+	t.assumps = append(t.assumps, Assump{Guard: guard, F: Formula{Raw: term}, Why: why, Global: t.phase2})
 }
 
 func (t *FnTrans) note(format string, a ...interface{}) {
